@@ -29,6 +29,13 @@ def hx(v):
     return float(v).hex()
 
 
+def pm_degrees(crs):
+    """longitude of the prime meridian in DEGREES (pyproj reports e.g. 'paris' in grads): the H_pm reading is in degrees"""
+    import math
+    pm = crs.prime_meridian
+    return float(pm.longitude) if pm.unit_name == "degree" else math.degrees(pm.longitude * pm.unit_conversion_factor)
+
+
 def unhex(v):
     if v is None:
         return None
@@ -184,7 +191,7 @@ def run_freeze(case):
             pd.update(fz["proj_info"])
         try:
             o["geo"] = bool(CRS(pd).is_geographic)
-            o["pm_in"] = float(CRS(pd).prime_meridian.longitude)
+            o["pm_in"] = pm_degrees(CRS(pd))
         except Exception:
             o["geo"] = None
         lonslats = mk_input(case)
@@ -206,7 +213,7 @@ def run_freeze(case):
     ext = [float(v) for v in area.area_extent]
     crs = area.crs
     o["result"] = {"extent": [hx(v) for v in ext], "w": int(area.width), "h": int(area.height),
-                   "pm180": bool(crs.prime_meridian.longitude == 180), "pm": float(crs.prime_meridian.longitude),
+                   "pm180": bool(pm_degrees(crs) == 180), "pm": pm_degrees(crs),
                    "geo": bool(crs.is_geographic), "crs": crs.to_proj4() if True else ""}
     # ---- raw material for the property oracle (evaluated in harness/c14.py)
     try:
